@@ -43,6 +43,10 @@ pub fn generate(g: &mut Gen, tier: &str) {
         let op = if g.rng.chance(1, 2) { "date_of_days" } else { "dt_of_days" };
         g.push(true, Input::new(op, vec![d]));
     }
+    generate_triples(g, n_rand);
+}
+
+pub fn generate_triples(g: &mut Gen, n_rand: usize) {
     // triples: boundary product
     let years: Vec<i128> = vec![
         -5_879_612, -5_879_611, -5_879_610, -401, -400, -101, -100, -5, -4, -2, -1, 0, 1, 2, 4, 100, 400, 1900, 1970,
